@@ -180,7 +180,12 @@ def observeFrame (st : St) (frame : Bytes) (ret : Nat) : List (String × String 
     | _, some s =>
       -- no IPv6 range can be configured: no IPv6 source lies in an allowed range
       if fwd then
-        [("loose", if tagged then "D51" else "KF-loose-v6", s!"loose for {hex mac} IPv6 source {hex s} forwarded although no IPv6 range exists")]
+        -- KF-loose-v6 is exactly: forwarded because the MAC has no IPv6 binding, or because the source IS the bound
+        -- address.  A frame forwarded with a source other than the bound one is a different defect: clause none.
+        let bound6 := sb.bind (·.v6)
+        let kf := bound6 = none ∨ bound6 = some s
+        [("loose", if tagged then "D51" else if kf then "KF-loose-v6" else "none",
+          s!"loose for {hex mac} IPv6 source {hex s} (bound [{match bound6 with | some a => hex a | none => "-"}]) forwarded although no IPv6 range exists")]
       else []
     | _, _ => []
   else []
